@@ -98,7 +98,7 @@ def build(name):
             # holds a bound wrapper (a live cache entry of the descriptor) during a retrieval, then lets go of it and collects
             import gc
             b = k.m
-            r = sigtools.signature(b)
+            r = str(sigtools.signature(b))      # (as text: the signature object itself refers to the wrapper through its sources)
             del b
             gc.collect()
             return r
